@@ -616,6 +616,12 @@ func buildJobs(prop, tier string) []interface{} {
 		jobs = append(jobs, Job{Mode: "bfs", Cfg: cfg, MaxStates: maxStates})
 	}
 	jobs = append(jobs, Job{Mode: "bfs", Cfg: Config{MaxInFlight: 3, TimeoutTicks: 2, Base: 1<<32 - 2, Offsets: []uint32{1, 2, 3}, Kinds: []string{"mid", "fin"}, Ticks: []int{3}, MaxRecs: 2, PostClose: 1, ReenterPushLow: true}, MaxStates: maxStates})
+	// a Stream that also satisfies every interface the tree under test declares (optional interfaces asserted on)
+	for _, m := range []int{1, 2} {
+		cfg := Config{MaxInFlight: m, TimeoutTicks: farTimeout, Base: 1<<32 - 3, Offsets: []uint32{0, 1, 3, 4}, Kinds: []string{"mid", "fin", "eoe"}, MaxRecs: 2, PostClose: 1, FullStream: true}
+		jobs = append(jobs, Job{Mode: "bfs", Cfg: cfg, MaxStates: maxStates})
+	}
+	jobs = append(jobs, Job{Mode: "bfs", Cfg: Config{MaxInFlight: 2, TimeoutTicks: 2, Base: 5, Offsets: []uint32{0, 1, 3}, Kinds: []string{"mid", "fin"}, Ticks: []int{3}, MaxRecs: 2, PostClose: 1, FullStream: true}, MaxStates: maxStates})
 	// a caller that scribbles on the Sequence field of its struct once PushMessage has returned: the number the event
 	// is grouped and ordered by is the one it was pushed with
 	for _, c := range []Config{
